@@ -208,7 +208,9 @@ func (w *World) cloneSetActions(cs *kruisev1alpha1.CloneSet) []EnvAction {
 	if len(v.pods) > v.replicas {
 		a(EnvCSScaleDown, "")
 	}
-	if !cs.Spec.UpdateStrategy.Paused && len(v.updated) < v.allowed && len(v.old) > 0 && len(v.pods) <= v.replicas {
+	// Kruise: partition is the number of pods to keep on old revisions; a pod is updated only
+	// while more old pods exist than that
+	if !cs.Spec.UpdateStrategy.Paused && len(v.old) > v.replicas-v.allowed && len(v.pods) <= v.replicas {
 		a(EnvCSUpdatePod, "")
 	}
 	want := w.cloneSetStatus(v)
@@ -244,8 +246,9 @@ func (w *World) applyCloneSet(act EnvAction) {
 	}
 	switch act.Kind {
 	case EnvCSScaleUp:
+		// scaling up under a partition first fills the old-revision quota with current-revision pods
 		rev := v.updRev
-		if len(v.updated) >= v.allowed && cs.Status.CurrentRevision != "" {
+		if len(v.old) < v.replicas-v.allowed && cs.Status.CurrentRevision != "" && cs.Status.CurrentRevision != v.updRev {
 			rev = cs.Status.CurrentRevision
 		}
 		_ = cli.Create(context.TODO(), w.newPod(cs.Namespace, cs.Name, podLabels(rev), owner, false))
@@ -258,7 +261,7 @@ func (w *World) applyCloneSet(act EnvAction) {
 		sort.Slice(victims, func(i, j int) bool { return victims[i].Name > victims[j].Name })
 		_ = cli.Delete(context.TODO(), victims[0])
 	case EnvCSUpdatePod:
-		if cs.Spec.UpdateStrategy.Paused || len(v.updated) >= v.allowed || len(v.old) == 0 {
+		if cs.Spec.UpdateStrategy.Paused || len(v.old) <= v.replicas-v.allowed || len(v.old) == 0 {
 			return
 		}
 		sort.Slice(v.old, func(i, j int) bool { return v.old[i].Name < v.old[j].Name })
